@@ -158,28 +158,38 @@ def invalidate_attrs(
     obj: Any,
     attr: str,
     invalidation_map: Dict[str, Set[str]] = None,
-    _seen: Set[str] = None,
 ):
     if invalidation_map is None:
         invalidation_map = obj.__spec_class__.invalidation_map
     if not invalidation_map:
         return
-    seen = {attr} if _seen is None else _seen
 
-    # Handle invalidation
-    for invalidatee in invalidation_map.get(attr, set()) | invalidation_map.get(
-        "*", set()
-    ):
-        if invalidatee == attr or invalidatee in seen:
-            continue
+    # Collect everything that (transitively) depends on `attr` first, and then
+    # reset each dependant exactly once. (Letting every reset start a cascade
+    # of its own revisits attributes, and never terminates when dependants
+    # reach each other, e.g. through the `"*"` wildcard.)
+    seen = {attr}
+    pending = [attr]
+    invalidatees = []
+    while pending:
+        current = pending.pop(0)
+        for invalidatee in sorted(
+            invalidation_map.get(current, set()) | invalidation_map.get("*", set())
+        ):
+            if invalidatee not in seen:
+                seen.add(invalidatee)
+                invalidatees.append(invalidatee)
+                pending.append(invalidatee)
+
+    generated_delattr = hasattr(type(obj).__delattr__, "__raw__")
+    for invalidatee in invalidatees:
         try:
-            delattr(obj, invalidatee)
+            if generated_delattr:
+                obj.__delattr__(invalidatee, skip_invalidation=True)
+            else:
+                delattr(obj, invalidatee)  # pragma: no cover
         except AttributeError:
-            # There was nothing to delete (e.g. an uncached property), but
-            # values derived from `invalidatee` may still be cached further down
-            # the chain, so keep propagating.
-            seen.add(invalidatee)
-            invalidate_attrs(obj, invalidatee, invalidation_map, seen)
+            pass  # There was nothing to delete (e.g. an uncached property).
 
 
 def mutate_value(
